@@ -126,6 +126,13 @@ def _cases_core(rng, tier):
             # compressed flag byte wrong
             w = list(b58check_enc((b"\xef" if t else b"\x80") + k.to_bytes(32, "big") + bytes([rng.choice([0, 2, 255])])))
         yield "from_wif " + sx("".join(w)), "from-wif-mutated"
+    # payloads of every length around the two standard ones (33 / 34 bytes): shorter, and LONGER by 1..40 bytes
+    for k in [1, N - 1] + [rng.randrange(1, N) for _ in range(1 if tier == "quick" else 10)]:
+        for pre in (0x80, 0xef):
+            for extra in (b"", b"\x01", b"\x01\x01", b"\x00", b"\x01\x00", bytes(4), b"\x01" * 7, bytes(range(40))):
+                yield "from_wif " + sx(b58check_enc(bytes([pre]) + k.to_bytes(32, "big") + extra)), "from-wif-payload-length"
+            for cut in (1, 2, 31):
+                yield "from_wif " + sx(b58check_enc(bytes([pre]) + k.to_bytes(32, "big")[:cut])), "from-wif-payload-length"
     # a key IMPORTED from a WIF text and then EXPORTED in every flavour (twice, mixed order) on the same object: what was
     # imported must not colour what is exported.  Imports include payloads with a foreign version byte, a missing / odd
     # compression flag — whatever from_wif accepts
@@ -197,6 +204,12 @@ def oracle(line, out):
             kb = pl[1:]
         else:
             kb = None
+        # "wrong length": whatever the version byte, the secret part (payload minus version byte, minus the flag byte of
+        # a text starting with K / L / c) must be exactly 32 bytes long, else no key may come out
+        secret_part = pl[1:-1] if s[:1] in ("K", "L", "c") else pl[1:]
+        if len(secret_part) != 32:
+            return None if v is None else ("WIF payload whose secret part has %d bytes (not 32) yielded the key %s"
+                                           % (len(secret_part), v[:16]))
         if kb is None:
             # non-standard payloads: must not yield a key that differs from the payload's 32 bytes
             if v is not None and unhex(v) not in (pl[1:33], pl[1:]):
